@@ -131,7 +131,8 @@ def run(ctx):
                         "uninitialised local whose address is passed out is written by the callee on every path")
     res.rule("C20-R5", "padding and gaps are explicit: frames are padded with explicit zeros (C07-R1) and builders write every byte they advance over (C13-R3)")
     res.rule("C20-R6", "no foreign memory: bytes reach a decoded packet only through in-bounds reads — the message-level bounds of C03-R4 and the "
-                        "view / pair / construction / copy obligations of C02 (R1, R1p, R2, R3) over all decode-reachable code; on the build side setData copies "
+                        "view / pair / construction / copy obligations of C02 (R1, R1p, R2, R3) over all decode-reachable code; the data views of an accepted payload "
+                        "stay inside its own bytes (C03-R2); on the build side setData copies "
                         "exactly the caller's (data, length) pair (C13-R1)")
     res.assumptions += ["memory the caller passes in is defined", "std::vector(n) and resize(n) value-initialise their elements (libstdc++)"]
     res.not_decided += ["anything about memory the caller passes in"]
@@ -304,6 +305,10 @@ def run(ctx):
     for o in sub03.obligations:
         if o["rule"] == "C03-R4":
             res.check(o["ok"], "C20-R6", "input-bounds:" + o["key"], o["loc"], o["detail"])
+        elif o["rule"] in ("C03-R2a", "C03-R2b", "C03-R2c"):
+            # the (pointer, length) views a packet hands out lie inside the payload's own bytes: a view that reaches beyond them shows the
+            # reader whatever happens to sit behind the vector — foreign heap memory in a decoded packet's data
+            res.check(o["ok"], "C20-R6", "views:" + o["key"], o["loc"], o["detail"])
     from rules import c02
     sub02 = c02.run(ctx)
     for o in sub02.obligations:
